@@ -5,7 +5,7 @@
 // operations and proves that its sequence of (word, operation, argument, ordering) equals that of a small automaton.
 // The automata are then interleaved in h_wakemodel.rs (step 2).
 //
-// @file crate=incrate features= replay_cfg=uazu_replay_waker restrict_vtable=1
+// @file crate=incrate cfgs=uazu_vstd_scripted replay_cfg=uazu_replay_waker restrict_vtable=1
 use super::*;
 use crate::uazu_stakker_verif::vstd::sync::atomic::{log_event, trace, Event, EVMAX, OP_CALLBACK, OP_OR, OP_SWAP};
 
@@ -262,3 +262,5 @@ fn w_wake_list_equiv() {
 
 #[cfg(uazu_replay_waker)]
 include!(env!("UAZU_STAKKER_REPLAY_FILE"));
+
+
